@@ -52,11 +52,14 @@ R = [
  ("C11f-single-stat-reused-on-open", [(SG, "            nc, fs = self.nc, self.fs\n", "            nc, fs = self.nc, self.fs\n            self.nbytes = self.file_bin.stat().st_size  # the size of the file that is about to be mapped\n")],
   "Reader stats the binary once per construction and once per open(); the frame count comes from the size of the file being mapped"),
  ("C12f-last-window-backfill-phase", [(NP, "        lead = min(int(self.samples_window) - (last - first), first)\n",
-                                       "        lead = min(int(self.samples_window) - (last - first), first)\n        lead = (lead // int(self.ratio)) * int(self.ratio)  # keep the window start on the decimation grid\n")],
-  "one read per window shared by the AP and LF streams, filter scratch array re-used; the last window is extended backwards by a whole number of LF samples"),
+                                       "        lead = 0  # the (short) last window starts where the generator says: on the decimation grid\n")],
+  "one read per window shared by the AP and LF streams, filter scratch array re-used (re-allocated for the short last window); windows are read at the generator's bounds"),
  ("C14f-int8-sample-offset-pre-post-mask", [(WF, "    smp = np.arange(arr_peak.shape[1], dtype=np.int8)\n", "    smp = np.arange(arr_peak.shape[1])\n"),
                                              (WF, "    smp_from_peak = smp[np.newaxis, :] - np.asarray(indx_peak).astype(np.int8)[:, np.newaxis]\n", "    smp_from_peak = smp[np.newaxis, :] - np.asarray(indx_peak)[:, np.newaxis]\n")],
   "pre / post peak mask built from the sign of (sample - peak) in the platform integer type; maxima read at the arg-max; half-max broadcast"),
+ ("C16f-sparse-mute-taper-wraps-at-array-start", [(VO, "        i_mute = i_mute[i_mute < ns]  # the taper of a run reaching the end of the array is truncated\n",
+                                                   "        i_mute = i_mute[(i_mute >= 0) & (i_mute < ns)]  # the taper of a run reaching either end of the array is truncated\n")],
+  "saturation counts booleans instead of averaging them and subtracts the taper around the flagged samples only; taps falling outside the array on either side are dropped"),
 ]
 
 if __name__ == "__main__":
